@@ -5093,8 +5093,10 @@ func readOfficialHeader(buf []byte) (size uint32, containerTyper func(index uint
 		return size, containerTyper, header, pos, haveRuns, err
 	}
 	cf := func(index uint, card int) (newType byte) {
+		// the official format stores up to and including 4096 values as an
+		// array container; only larger cardinalities are bitmaps.
 		newType = containerBitmap
-		if card < ArrayMaxSize {
+		if card <= ArrayMaxSize {
 			newType = containerArray
 		}
 		return newType
